@@ -30,6 +30,12 @@ def _case(draw):
         # long trailing rest: total durations up to 20000 ticks (float round trips of the duration are duration-specific)
         spec["pad"] = draw(st.integers(0, 20000))
     d = max([n[3] for n in notes] + [m[1] for m in spec["meta"]] + [spec["pad"] or 0])
+    if op != "scale" and draw(st.integers(0, 4)) == 0:
+        # a sequence made of the same material twice (concatenate shares the message objects: one object, two positions).
+        # Not for scale: multiplying the waits in place reaches a shared WAIT object twice, a consequence of the sharing that
+        # test_concatenate pins (DESIGN 11.6)
+        spec["double"] = draw(st.sampled_from(["self", "fresh"]))
+        d *= 2
     case = {"seq": spec, "op": op}
     if op == "pad":
         case["n"] = draw(st.one_of(st.sampled_from([0, max(0, d - 1), d, d + 1, d + 17, 3 * d + 5]), st.integers(0, 400)))
@@ -70,6 +76,8 @@ def check(case):
     out = Outcome()
     op = case["op"]
     out.label(op)
+    if case["seq"].get("double"):
+        out.label("doubled-input")
     built = build_input(out, case["seq"])
     if built is None:
         return out
